@@ -663,6 +663,29 @@ def write_evidence(prop, tier, seed, parts, wall, violations, known_matched, bui
         cov["miri_cross_check"] = "shipped guard-off build under Miri (real std threads, real crossbeam-channel): no stub"
     cov["stub_components"] = (STUBS_E1 if "parsim" in engines else []) + (STUBS_E2 if any(e.startswith("seamsim") for e in engines) else [])
     cov["known_findings_matched"] = known_matched
+    # aggregated: which fault kinds actually fired in this run (not merely configured), per part
+    fk = {}
+    for (engine, sub), merged in parts.items():
+        for src in ("faults_fired", "fault_kinds"):
+            for k, v in merged.get(src, {}).items():
+                fk[k] = fk.get(k, 0) + v
+    cov["fault_kinds_fired"] = dict(sorted(fk.items()))
+    # last recorded self-checks of the machinery (committed records, not re-run here)
+    for name in ("determinism", "mutants"):
+        rp = os.path.join(HERE, "selfcheck", name + ".json")
+        if os.path.exists(rp):
+            try:
+                r = json.load(open(rp))
+                if name == "determinism":
+                    cov["determinism_selfcheck"] = {"record": "selfcheck/determinism.json", "parts": len(r.get("parts", [])),
+                                                    "divergences": r.get("divergences"), "at": r.get("started")}
+                else:
+                    res = [x for x in r.get("results", []) if x.get("mutant")]
+                    cov["mutants_selfcheck"] = {"record": "selfcheck/mutants.json", "mutants": len(res),
+                                                "caught": sum(1 for x in res if x.get("caught")), "at": r.get("at"),
+                                                "for_this_property": [x["mutant"] for x in res if x.get("property") == prop and x.get("caught")]}
+            except (ValueError, KeyError):
+                pass
     cov["build_s"] = build_s
     cov["repo_head"] = subprocess.run(["git", "-C", REPO, "rev-parse", "--short", "HEAD"], stdout=subprocess.PIPE, text=True).stdout.strip()
     cov["repo_dirty"] = bool(subprocess.run(["git", "-C", REPO, "status", "--porcelain", "--untracked-files=no"], stdout=subprocess.PIPE, text=True).stdout.strip())
